@@ -14,7 +14,7 @@ REQUIRED = ['winning_votes_is_textbook', 'margins_is_textbook', 'pairwise_opposi
             'cw_rankedpairs_partial', 'cw_kemeny_partial', 'kemeny_is_argmax', 'kemeny_refusal',
             'copeland_in_smith', 'schulze_in_smith', 'kemeny_in_smith', 'rankedpairs_in_smith', 'tideman_in_smith',
             'lockPairs_acyclic', 'isPath_iff', 'benham_tie_refused_not_outsider', 'eliminateOne_no_mixed_tie', 'no_contest_refused',
-            'benham_in_smith', 'subset_preserves_pairwise', 'wf_of_profileOK', 'copeland_defining', 'minimax_defining', 'worstDefeat_is_max', 'widestPaths_correct', 'winWeight_is_win_count',
+            'benham_in_smith', 'subset_preserves_pairwise', 'wf_of_profileOK', 'copeland_defining', 'copeland2o_defining', 'copeland2o_tied_members', 'copeland2o_scores', 'minimax_defining', 'worstDefeat_is_max', 'widestPaths_correct', 'winWeight_is_win_count',
             'no_candidate_dropped_copeland', 'no_candidate_dropped_minimax', 'no_candidate_dropped_schulze',
             'cw_rankedpairs_witness', 'cw_kemeny_witness', 'rankedpairs_dropped_witness', 'minimax_never_loser_fixed',
             'benham_elimination_tie_refused', 'tideman_elimination_tie_refused', 'tideman_last_tie_refused',
@@ -23,8 +23,7 @@ UNPROVED = ['cw_rankedpairs (rankedPairs sc v 1 = ok [w]): FALSE as stated on th
             'although a Condorcet winner exists); proved instead: cw_rankedpairs_partial (whenever it answers, it answers [w])',
             'cw_kemeny (kemenyYoung v 1 = ok [w]): FALSE as stated on the current code (cw_kemeny_witness: refusal when a lower '
             'place ties); proved instead: cw_kemeny_partial (elects exactly w or refuses with NotImplementedError)',
-            'rankedpairs no_candidate_dropped: FALSE (rankedpairs_dropped_witness)',
-            'copeland second-order defining computation (only the first-order scores are characterised: copeland_defining)']
+            'rankedpairs no_candidate_dropped: FALSE (rankedpairs_dropped_witness)']
 NAME_MODES = ['str', 'int0', 'empty0', 'person', 'tuple']
 REQUIRED_COUNTERS = ['converter', 'converter_no_bottom', 'has_cw', 'sparse_never_loser', 'all_tied', 'cycle', 'from_ranked', 'uab_true',
                      'uab_false', 'n_all', 'n_one', 'hybrid', 'second_order_used', 'fraction', 'missing_pair',
@@ -538,6 +537,48 @@ def _rankedpairs_forced(d, cands, kind):
     return prefix, not remaining
 
 
+def _rankedpairs_situation(case, kind):
+    """the locked graph with equal strengths taken in dictionary order (two stable sorts: the documented behaviour), peeled
+    source by source: 'several_sources' when some round does not have exactly one source (the recorded refusal of
+    _build_ranking), 'leftover' when more than one candidate is left without an outgoing locked pair at the end (the recorded
+    dropping of candidates), else 'total_order'"""
+    d = CC.dmap(case)
+    keys = [(a, b) for a, b, _ in case['votes']]
+
+    def strength(p):
+        x, y = d[p], d.get((p[1], p[0]), 0)
+        s = (x if x > y else 0) if kind == 'winvotes' else (x - y) if kind == 'margins' else x
+        return (s, x)
+    order = sorted(keys, key=strength, reverse=True)
+    locked = []
+
+    def path(a, b):
+        seen, todo = {a}, [a]
+        while todo:
+            u = todo.pop()
+            for x, y in locked:
+                if x == u and y not in seen:
+                    seen.add(y)
+                    todo.append(y)
+        return b in seen
+    for x, y in order:
+        if not path(y, x):
+            locked.append((x, y))
+    edges, ranked = list(locked), []
+    while edges:
+        src = {x for x, _ in edges} - {y for _, y in edges}
+        if len(src) != 1:
+            return 'several_sources'
+        w = src.pop()
+        ranked.append(w)
+        edges = [e for e in edges if e[0] != w]
+    left = [c for c in CC.cands_of(case) if c not in ranked]
+    return 'leftover' if len(left) > 1 else 'total_order'
+
+
+NEVER_REFUSE = ['copeland_2o', 'copeland_raw', 'schulze', 'minimax_winvotes', 'minimax_margins', 'minimax_pwo']
+
+
 def _listed(obs):
     out = set()
     for x in obs:
@@ -577,20 +618,40 @@ def oracle(case, obs):
     if hybrid and m == 1 and err is None and obs != [cands[0]]:
         out.append(('lone_candidate_not_elected', f'only candidate {cands[0]}, got {obs}'))
     # (1) Condorcet winner, one seat
-    if cw and n == 1 and (hybrid or name in CW_METHODS):
-        if err is not None:
-            out.append(('refuses_with_cw', f'{err} although {cw[0]} beats everybody'))
-        elif obs != [cw[0]]:
-            out.append(('cw_not_elected', f'Condorcet winner {cw[0]}, got {obs}'))
+    if cw and n == 1 and (hybrid or name in CW_METHODS) and err is None and obs != [cw[0]]:
+        out.append(('cw_not_elected', f'Condorcet winner {cw[0]}, got {obs}'))
     if err is not None:
-        # a declared refusal: acceptable only where the defining computation does not determine the places asked for
-        if not hybrid and name == 'kemeny_young':
+        # a declared refusal: acceptable only where the defining computation does not determine the places asked for.  Each
+        # clause names the situation (computed here, independently) in which the refusal occurs, so that a listed finding covers
+        # only the recorded behaviour
+        cw1 = bool(cw) and n == 1
+        if hybrid:
+            if cw1:
+                out.append(('refuses_with_cw', f'{err} although {cw[0]} beats everybody'))
+        elif name in NEVER_REFUSE:
+            out.append((f'refuses_unexpectedly:{err}', 'this evaluator has no refusal'))
+        elif name == 'kemeny_young':
             arg = _kemeny_best(d, cands)
-            if len({p[:n] for p in arg}) == 1 and not (cw and n == 1):
-                out.append(('refuses_determined', f'all {len(arg)} best orders agree on the first {n} places'))
-        if not hybrid and name.startswith('rankedpairs'):
-            fr = _rankedpairs_forced(d, cands, name.split('_')[1])
-            if fr is not None and len(fr[0]) >= n and not (cw and n == 1):
+            if err != 'NotImplementedError':
+                out.append((f'refuses_other:{err}', 'Kemeny-Young only refuses with NotImplementedError'))
+            elif len(arg) == 1:
+                out.append(('refuses_unique_best', f'refusal although the best order {arg[0]} is unique'))
+            elif len({p[:n] for p in arg}) == 1:
+                # recorded: several best orders exist, they differ only below the places asked for
+                out.append(('refuses_with_cw' if cw1 else 'refuses_determined',
+                            f'all {len(arg)} best orders agree on the first {n} places {arg[0][:n]}'))
+        elif name.startswith('rankedpairs'):
+            kind = name.split('_')[1]
+            sit = _rankedpairs_situation(case, kind)
+            fr = _rankedpairs_forced(d, cands, kind)
+            if err != 'VotingSystemError':
+                out.append((f'refuses_other:{err}', 'ranked pairs only refuses with VotingSystemError'))
+            elif sit != 'several_sources':
+                out.append(('refuses_' + sit, 'refusal although every round of the locked graph has exactly one source'))
+            elif cw1:
+                # recorded: the locked graph has several sources in a later round, the first place is the Condorcet winner
+                out.append(('refuses_with_cw', f'{err} although {cw[0]} beats everybody'))
+            elif fr is not None and len(fr[0]) >= n:
                 out.append(('refuses_determined', f'locked majorities force {fr[0][:n]}'))
         return out
     # (2) Smith set, one seat (Tideman alternative with the Schwartz selector: the Schwartz set)
@@ -623,7 +684,10 @@ def oracle(case, obs):
         return out
     # (3) nobody dropped when every candidate can be seated
     if n == m and _listed(obs) != set(cands):
-        out.append(('candidate_dropped', f'{sorted(set(cands) - _listed(obs))} missing from {obs}'))
+        where = ''
+        if name.startswith('rankedpairs') and _rankedpairs_situation(case, name.split('_')[1]) == 'total_order':
+            where = '_total_order'      # recorded only where the locked pairs leave several candidates without an outgoing pair
+        out.append(('candidate_dropped' + where, f'{sorted(set(cands) - _listed(obs))} missing from {obs}'))
     # (4) defining computation, up to reported ties
     vals = None
     if name == 'copeland_raw':
